@@ -6,10 +6,13 @@
 //! thread on cloned handles (`Database::clone`) of one fresh database per merge.
 //!
 //! Table t(id INT PRIMARY KEY, a INT), start state {1 -> 10} (key 1 present, key 2 absent).  A handle script
-//! is a sequence of autocommit statements and at most one `BEGIN .. COMMIT|ROLLBACK` block over
-//! {INSERT 2, UPDATE 1, DELETE 1, [UPDATE 2, DELETE 2, INSERT 1], SELECT * (scan), SELECT .. WHERE id = 1
-//! (point look-up)}.  Every write writes a value that is unique in the merge (100*(handle+1)+position), so
-//! a value that shows up in a read identifies the write it came from.
+//! is every well-formed sequence of <= L statements (BEGIN / COMMIT / ROLLBACK count as statements) over
+//! {INSERT 2, UPDATE 1, DELETE 1, [INSERT 1, UPDATE 2, DELETE 2], SELECT * (scan), SELECT .. WHERE id = k
+//! (point look-up), BEGIN, COMMIT, ROLLBACK}: autocommit statements and at most one transaction, which may
+//! still be open when the script ends (the handle is then dropped = implicit rollback).  Every write writes
+//! a value that is unique in the merge (100*(handle+1)+position), so a value that shows up in a read
+//! identifies the write it came from.  A handle never addresses a row it deleted itself and a merge is not
+//! judged further once an UPDATE / DELETE addresses a tombstoned row (C05 findings, not this property).
 //!
 //! Oracle = a tiny snapshot-isolation model inside this file: committed store + per-transaction snapshot
 //! taken at BEGIN + own writes.  (1) an autocommit read returns the committed store, a read inside a
@@ -851,7 +854,7 @@ impl Check for C08 {
         let mut s = Spec::new(
             "C08",
             "model_checking",
-            "a case is one merge (interleaving of statements) of the scripts of 2 or 3 cloned handles, executed sequentially on one fresh database t(id INT PRIMARY KEY, a INT) = {1 -> 10}; handle scripts = every sequence of <= L data statements over {INSERT 2, UPDATE 1, DELETE 1, SELECT * | SELECT WHERE id = 1 [, INSERT 1, UPDATE 2, DELETE 2]} in autocommit mode with at most one BEGIN .. COMMIT|ROLLBACK block of 1-2 statements; all unordered pairs (triples) of scripts x ALL their merges, shortest first. Oracle: snapshot-isolation model (committed store, per-transaction snapshot + own writes, overlap check at COMMIT) evaluated on every statement; a merge stops at its first violation and merges sharing that prefix are pruned (counted). Distinct = distinct (scripts, merge order); non-trivial = at least one handle runs a transaction or two handles touch the table.",
+            "a case is one merge (interleaving of statements) of the scripts of 2 or 3 cloned handles, executed sequentially in one thread on one fresh database t(id INT PRIMARY KEY, a INT) = {1 -> 10}; handle scripts = every well-formed sequence of <= L statements over {INSERT 2, UPDATE 1, DELETE 1, SELECT * | SELECT WHERE id = k [, INSERT 1, UPDATE 2, DELETE 2], BEGIN, COMMIT, ROLLBACK} (autocommit statements + at most one transaction, possibly left open = dropped handle); passes: 2 handles L=3 (quick) / L=4 (thorough) over the core alphabet with scans, the same with point look-ups, a wide alphabet (both keys, all statement kinds) with L=2 / L=3, and 3 handles with L=2 (thorough); all unordered pairs (triples) of scripts within the stated total-length bound x ALL their merges, shortest first. Oracle: snapshot-isolation model (committed store, per-transaction snapshot + own writes, overlap check at COMMIT, final read through a fresh handle) evaluated on every statement; a merge stops at its first violation and merges sharing that prefix are pruned (counted). Distinct = distinct (scripts, merge order); non-trivial = some handle writes or runs a transaction.",
         );
         s.assumptions = &[
             "one statement = one execute call; statement-level interleavings only (thread-level interleaving inside COMMIT is C37/C38)",
@@ -955,20 +958,15 @@ impl Check for C08 {
             cut[h].push(scripts[h][pos[h]]);
             pos[h] += 1;
         }
-        // positions (and thereby the written values) are those of the original scripts
+        // positions (and thereby the written values) are those of the original scripts; the run stops at the
+        // violating step (on a repaired tree it goes on: open transactions are rolled back by the handle drop)
         let c = Case { scripts: &cut, order: &order };
         rep.case(vcore::util::hash_of(&(&order, scripts.iter().map(script_names).collect::<Vec<_>>())), true);
-        match run_merge_prefix(&ctx.scratch, &c, Plant::from_ctx(ctx)) {
+        match run_merge(&ctx.scratch, &c, Plant::from_ctx(ctx)) {
             Ok(out) => record(rep, &scripts, &order, &out),
             Err(e) => rep.note(&format!("replay: {e}")),
         }
     }
-}
-
-/// replay helper: a prefix leaves transactions open — run the steps, skip the final observation unless the
-/// violation was found there
-fn run_merge_prefix(base: &std::path::Path, case: &Case, plant: Plant) -> Result<MergeOut, String> {
-    run_merge(base, case, plant)
 }
 
 fn main() {
